@@ -4,16 +4,20 @@ import z3
 
 from .vals import IntS, BoolS, StrS, PyVal, kind_sort, from_sort, elem_heapkey
 
-_counter = itertools.count()
+_counter = [0]
 
 
 def fresh(name, sort):
-    return z3.Const(f"{name}!{next(_counter)}", sort)
+    _counter[0] += 1
+    return z3.Const(f"{name}!{_counter[0]}", sort)
+
+
+def counter_value():
+    return _counter[0]
 
 
 def reset_counter():
-    global _counter
-    _counter = itertools.count()
+    _counter[0] = 0
 
 
 FAM_SORT = {"int": IntS, "str": StrS, "any": PyVal, "ref": IntS}
